@@ -159,10 +159,20 @@ func randType(r *vh.Rng, depth int) reflect.Type {
 			// maps of structs / pointers to structs: where MapValueReset and the in-place update differ
 			n := 2 + r.Intn(2)
 			var fs []reflect.StructField
+			// half of them small and pointer-free (ints only): such map values are decoded into the
+			// decoder's per-type scratch space when the key is new
+			allInt := r.Bool()
 			for i := 0; i < n; i++ {
-				fs = append(fs, reflect.StructField{Name: string(rune('A' + i)), Type: randType(r, 0)})
+				ft := randType(r, 0)
+				if allInt {
+					ft = tInt
+				}
+				fs = append(fs, reflect.StructField{Name: string(rune('A' + i)), Type: ft})
 			}
 			st := reflect.StructOf(fs)
+			if allInt && r.Chance(2, 3) {
+				return reflect.MapOf(tStr, st)
+			}
 			if r.Bool() {
 				return reflect.MapOf(tStr, reflect.PointerTo(st))
 			}
@@ -417,8 +427,12 @@ func randItem(r *vh.Rng, t reflect.Type, cur reflect.Value, nilProb int) *item {
 		return it
 	case reflect.Map:
 		it := &item{kind: "map"}
-		for _, k := range []string{"a", "b", "c", "d"} {
-			if r.Chance(2, 5) {
+		num, den := 2, 5
+		if t.Elem().Kind() == reflect.Struct {
+			num, den = 4, 5 // several entries, full ones followed by partial ones, known and new keys
+		}
+		for _, k := range []string{"a", "b", "c", "d", "e"} {
+			if r.Chance(num, den) {
 				it.keys = append(it.keys, k)
 				kk := k
 				it.vals = append(it.vals, randItem(r, t.Elem(), sub(func() reflect.Value { return cur.MapIndex(reflect.ValueOf(kk)) }), nilProb))
